@@ -211,12 +211,16 @@ def check(ctx: Ctx, frames: list[tuple[int, bytes]], tail: Any, tail_prefix: int
         res.count("frames_delivered_and_checked", r["n_delivered"])
         res.sig(tuple(frame_class(*f) for f in frames) if len(frames) <= 8 else ("burst", len(frames)), tuple(classes), kind,
                 None if not tail else (frame_class(*tail), min(tail_prefix, 9)), len(cuts) if len(cuts) < 4 else "many")
-    for key, what in r["problems"]:
-        case = {"frames": [(t, p.hex() if len(p) <= 64 else f"payload({len(p)})") for t, p in frames],
+    if r["problems"]:
+        case = {"frames": [(t, p.hex() if len(p) <= 64 else f"payload({len(p)})") for t, p in frames[:40]],
                 "frame_lens": [len(p) for _, p in frames], "frame_types": [t for t, _ in frames],
                 "tail": None if not tail else [tail[0], len(tail[1])], "tail_prefix": tail_prefix,
                 "cuts": list(cuts[:50]), "kind": kind, "rest_cuts": list(rest_cuts)}
-        res.violation(f"C01/{key}", what, case)
+        seen_keys: set[str] = set()
+        for key, what in r["problems"]:
+            if key not in seen_keys:     # one witness per kind of problem and case (a broken burst has thousands of identical ones)
+                seen_keys.add(key)
+                res.violation(f"C01/{key}", what, case)
     if res.evaluations % 4000 == 1:
         res.sample({"frame_types": [t for t, _ in frames], "frame_lens": [len(p) for _, p in frames],
                     "tail": None if not tail else {"type": tail[0], "len": len(tail[1]), "prefix_bytes": tail_prefix},
